@@ -1,6 +1,6 @@
 SPECIFICATION Spec
 CONSTANTS MaxD = 6
-          Sigs = "sorted"
+          Sigs = "few"
           MaxBlades <- MB_d6
           Vals <- Vals_d6
 INVARIANT InvShirokov
